@@ -142,7 +142,9 @@ static inline WriteOutcome run_writer(const gen::WritePlan& p, const std::string
                 int32_t bc = g_bad_call_kind == 0 ? -1 : g_bad_call_kind == 1 ? (int32_t)p.table.cols.size() : b.col;
                 g_bad_call_status = cq::writer_write_batch(w, bc, pk->buf.get(), b.count, defs.get(), nullptr);
             }
-            note(cq::writer_write_batch(w, b.col, pk->buf.get(), b.count, defs.get(), nullptr));
+            std::unique_ptr<int16_t[]> reps;
+            if (b.pass_rep) { reps.reset(new int16_t[b.count ? b.count : 1]); for (int64_t i = 0; i < b.count; i++) reps[(size_t)i] = ch.rep[(size_t)(b.start + i)]; }
+            note(cq::writer_write_batch(w, b.col, pk->buf.get(), b.count, defs.get(), reps.get()));
             if (!ok && on_error) break;
         }
         if (!ok && on_error) break;
